@@ -311,6 +311,40 @@ def classNames (h : Heap) (cls : Ref) : Option (String × String) :=
     | _, _ => none
   | _ => none
 
+/-- the instance's own `__dict__` cell; allocated (empty) when the instance has none yet -/
+def VM.instDict (v : VM) (inst : Ref) (p : ObjParts) : Ref × VM :=
+  match p.state with
+  | some d => (d, v)
+  | none => (v.heap.size,
+      { v with heap := (v.heap.push ⟨.dict, []⟩).setIfInBounds inst { p with state := some v.heap.size }.cell })
+
+/-- `if state: inst_dict = inst.__dict__; for k, v in state.items(): inst_dict[k] = v` for the pickled state cell `dc` -/
+def VM.updateAttrs (v : VM) (inst : Ref) (p : ObjParts) (dc : Cell) : Except Err VM :=
+  match truthy dc with
+  | none => .error (.unsupported "state truth value")
+  | some false => .ok v
+  | some true =>
+    if dc.tag != .dict then .error (.kind "state") else
+    match (v.instDict inst p).2.cell (v.instDict inst p).1 with
+    | .error e => .error e
+    | .ok cur =>
+      if cur.tag != .dict then .error (.kind "__dict__") else
+      match dictSetMany (v.instDict inst p).2.heap cur.kids dc.kids with
+      | .error e => .error e
+      | .ok k' => .ok ((v.instDict inst p).2.setCell (v.instDict inst p).1 { cur with kids := k' })
+
+/-- `if slotstate: for k, v in slotstate.items(): setattr(inst, k, v)` — only the empty case is mirrored -/
+def VM.slotState (v : VM) (slot : Option Ref) : Except Err VM :=
+  match slot with
+  | none => .ok v
+  | some s =>
+    match v.cell s with
+    | .error e => .error e
+    | .ok sl =>
+      match truthy sl with
+      | some false => .ok v
+      | _ => .error (.unsupported "slotstate")
+
 /-- `load_build` -/
 def VM.build (cfg : Cfg) (v0 : VM) : Except Err VM := do
   let (st, v) ← v0.popRef
@@ -325,33 +359,13 @@ def VM.build (cfg : Cfg) (v0 : VM) : Except Err VM := do
       if cfg.setstate.contains mn then throw (.unsupported "__setstate__") else
       let sc ← v.cell st
       -- `if isinstance(state, tuple) and len(state) == 2: state, slotstate = state`
-      let (dref, slot) : Ref × Option Ref :=
+      let ds : Ref × Option Ref :=
         match sc.tag, sc.kids with
         | .tuple, [a, b] => (a, some b)
         | _, _ => (st, none)
-      let dc ← v.cell dref
-      let v1 ← match truthy dc with
-        | none => throw (.unsupported "state truth value")
-        | some false => pure v
-        | some true =>
-          if dc.tag != .dict then throw (.kind "state") else
-          -- the instance's own `__dict__`: allocated (empty) at the first BUILD that needs it
-          let (dcell, v') : Ref × VM := match p.state with
-            | some d => (d, v)
-            | none =>
-              let d := v.heap.size
-              (d, { v with heap := (v.heap.push ⟨.dict, []⟩).setIfInBounds inst { p with state := some d }.cell })
-          let cur ← v'.cell dcell
-          if cur.tag != .dict then throw (.kind "__dict__") else
-          let k' ← dictSetMany v'.heap cur.kids dc.kids
-          pure (v'.setCell dcell { cur with kids := k' })
-      match slot with
-      | none => pure v1
-      | some s =>
-        let sl ← v1.cell s
-        match truthy sl with
-        | some false => pure v1
-        | _ => throw (.unsupported "slotstate")
+      let dc ← v.cell ds.1
+      let v1 ← v.updateAttrs inst p dc
+      v1.slotState ds.2
 
 def VM.step (cfg : Cfg) (v : VM) : Op → Except Err VM
   | .proto n => if n ≤ 5 then pure v else throw .proto
@@ -542,9 +556,12 @@ def batchIter (save : Saver) (per : Nat) (close single : Op) (kids : List Ref) (
     Except Err (List Op × PMemo) :=
   saveBatches save per close (some single) (chunks (per * batchSize) kids) m
 
-def memoIdx (m : PMemo) (x : Ref) : Option Nat :=
-  let i := m.idxOf x
-  if i < m.length then some i else none
+/-- position of the first occurrence -/
+def indexOf? (x : Ref) : List Ref → Option Nat
+  | [] => none
+  | y :: ys => if y = x then some 0 else (indexOf? x ys).map (· + 1)
+
+def memoIdx (m : PMemo) (x : Ref) : Option Nat := indexOf? x m
 
 def atomOp? (c : Cell) : Option Op :=
   match c.tag with
@@ -670,25 +687,43 @@ structure Canon where
   cells : List (Tag × List CRef)
   deriving DecidableEq, Repr, Inhabited
 
+def mapOpt {α β : Type} (f : α → Option β) : List α → Option (List β)
+  | [] => some []
+  | x :: xs =>
+    match f x, mapOpt f xs with
+    | some y, some ys => some (y :: ys)
+    | _, _ => none
+
 def rename (h : Heap) (order : List Ref) (k : Ref) : Option CRef :=
   match h[k]? with
   | none => none
-  | some c => if c.isAtom then some (.atom c.tag) else
-    let i := order.idxOf k
-    if i < order.length then some (.idx i) else none
+  | some c => if c.isAtom then some (.atom c.tag) else (indexOf? k order).map .idx
 
 def canonCell (h : Heap) (order : List Ref) (x : Ref) : Option (Tag × List CRef) :=
   match h[x]? with
   | none => none
-  | some c => (c.kids.mapM (rename h order)).map (fun ks => (c.tag, ks))
+  | some c => (mapOpt (rename h order) c.kids).map (fun ks => (c.tag, ks))
 
 def canon (h : Heap) (r : Ref) : Option Canon :=
   match reach h r with
   | none => none
   | some order =>
-    match rename h order r, order.mapM (canonCell h order) with
+    match rename h order r, mapOpt (canonCell h order) order with
     | some root, some cells => some ⟨root, cells⟩
     | _, _ => none
+
+/-- the round trip evaluated on one rooted heap: `dump` succeeds, `run` of its opcodes succeeds, both canonical forms
+    exist and are equal (driver op `pickle-roundtrip`; `PepperProps/C16Pickle.lean: roundtrip_of_check`) -/
+def roundtripB (h : Heap) (r : Ref) : Bool :=
+  match dump h r with
+  | .error _ => false
+  | .ok ops =>
+    match run ops with
+    | .error _ => false
+    | .ok (h', r') =>
+      match canon h r, canon h' r' with
+      | some c, some c' => c == c'
+      | _, _ => false
 
 /-! ### statistics (evidence only) -/
 
